@@ -19,6 +19,7 @@ REQS = {
     "SA33": U.setup_bytes(0x00, 5, A1, 0, 0),
     "SAB5": U.setup_bytes(0x00, 5, 0x0080 | A2, 0, 0),     # bit 7 of wValue must be ignored: address = low 7 bits
     "SA64": U.setup_bytes(0x00, 5, A3, 0, 0),
+    "SA0": U.setup_bytes(0x00, 5, 0, 0, 0),                 # back to the default address
     "SC1": U.setup_bytes(0x00, 9, 1, 0, 0),
     "SC2": U.setup_bytes(0x00, 9, 2, 0, 0),
     "SC85": U.setup_bytes(0x00, 9, 0x85, 0, 0),            # a configuration value that needs all eight bits
@@ -29,7 +30,7 @@ ADDRS_HI = (0, A3, A3_ALIAS)
 
 
 def configs(tier):
-    cs = [dict(gap=1, pace=1, reqs=["SA33", "SC1", "GST"]), dict(gap=2, pace=1, reqs=["SA64", "SC1"], addrs="hi"), dict(gap=3, pace=1, reqs=["SAB5", "SC85", "SA33"]),
+    cs = [dict(gap=1, pace=1, reqs=["SA33", "SC1", "GST"]), dict(gap=2, pace=1, reqs=["SA64", "SC1"], addrs="hi"), dict(gap=1, pace=1, reqs=["SA33", "SA0"]), dict(gap=3, pace=1, reqs=["SAB5", "SC85", "SA33"]),
           dict(gap=2, pace=8, reqs=["SA33", "SC1"])]
     if tier == "thorough":
         cs += [dict(gap=1, pace=1, reqs=["SA33", "SAB5", "SC1", "SC2", "SC85", "GST"]), dict(gap=6, pace=2, reqs=["SAB5", "SC1", "GST"])]
@@ -79,7 +80,10 @@ class AddrSpec(Spec):
         acts.append(("reset",))
         return acts
 
-    def goals(self): return ["address-committed", "config-committed", "status-ack-lost", "foreign-ack-while-pending", "reset-while-pending", "reset-after-commit"]
+    def goals(self):
+        g = ["address-committed", "status-ack-lost", "foreign-ack-while-pending", "reset-while-pending", "reset-after-commit"]
+        if any(r.startswith("SC") for r in self.reqs): g.append("config-committed")
+        return g
 
     def apply(self, cur, env, a):
         addr, cfg, pending, stage = env
